@@ -312,8 +312,20 @@ func runC07(res *hx.Result, rng *hx.Rng, tier string, outdir string) {
 	outs := c07execute(jobs)
 
 	cfg, _ := wireSwitches(res)
-	cs := hx.NewCases(outdir, "C07", "From QV Require Import Value GenDec Cost ParseOpt SigParse C07Run.", "mismatches cfg cases", res, "cases", "c07case")
+	cs := hx.NewCases(outdir, "C07", "From QV Require Import Value GenDec Cost ParseOpt SigParse C07Run.", "mismatches cfg gen_pol cases", res, "cases", "c07case")
 	cs.Extra = append(cs.Extra, cfg)
+	// the witness of C07_refuted_gen_alloc decides which allocation policy the generated decoders follow
+	genWitness := -1
+	for i, j := range jobs {
+		if j.desc == "witness gen_alloc_from_wire_count" {
+			genWitness = i
+		}
+	}
+	genPol := "PSig"
+	if genWitness >= 0 && (outs[genWitness].class >= 5 || outs[genWitness].alloc > 64<<20) {
+		genPol = "PGen"
+	}
+	cs.Extra = append(cs.Extra, "Definition gen_pol := "+genPol+".")
 	sw := map[string]bool{}
 	swDetail := map[string]string{}
 	for i, j := range jobs {
